@@ -3,6 +3,29 @@
 import json, os
 here = os.path.dirname(os.path.abspath(__file__))
 src = json.load(open(os.path.join(here, 'manifest_src.json')))
+import glob, re
+VER = os.path.dirname(here)
+try:
+    KNOWN = json.load(open(os.path.join(VER, 'known_findings.json')))
+except Exception:
+    KNOWN = []
+
+
+def stats(pid):
+    n = 0
+    for f in glob.glob(os.path.join(VER, 'lean/Props/%s.lean' % pid)) + glob.glob(os.path.join(VER, 'lean/Props/%s_*.lean' % pid)):
+        n += len(re.findall(r'^theorem ', open(f).read(), re.M))
+    kn = sum(1 for e in KNOWN if e.get('property') == pid and e.get('status') == 'known')
+    fx = sum(1 for e in KNOWN if e.get('property') == pid and e.get('status') == 'fixed')
+    cv = ''
+    try:
+        m = re.search(r'anchored files together: \d+ of \d+ statements reached \((\d+)%\)', open(os.path.join(VER, 'coverage/%s.md' % pid)).read())
+        cv = '; the quick tier executes %s%% of the statements of the anchored files (coverage/%s.md)' % (m.group(1), pid)
+    except Exception:
+        pass
+    return ' [generated: %d proof obligations in lean/Props/%s*.lean; known_findings.json lists %d known and %d repaired defects for this property%s]' % (n, pid, kn, fx, cv)
+
+
 checks = []
 for c in src['checks']:
     pid = c['id']
@@ -14,7 +37,7 @@ for c in src['checks']:
         'replay_cmd_template': './check %s --replay {path}' % pid,
         'engine': 'lean4-model+correspondence',
         'level_claimed': {'category': 'proof', 'text': c['text'], 'design_ref': c.get('design_ref', 'DESIGN.md §4 ' + pid)},
-        'level_note': c['note'],
+        'level_note': c['note'] + stats(pid),
         'technique': c.get('technique', 'Lean 4 machine-checked proof over a hand-written model; model tied to /repo by regenerated facts (T1) and differential correspondence (T2); failing-input search by direct oracle (T3)'),
     })
 m = {
